@@ -373,9 +373,13 @@ class Specifier(BaseSpecifier):
         # the other specifiers.
 
         # We want everything but the last item in the version, but we want to
-        # ignore suffix segments.
+        # ignore suffix segments. The segments are recognised by their normalized
+        # spelling, so normalize the specifier's version first.
+        normalized_spec = canonicalize_version(spec, strip_trailing_zero=False)
         prefix = _version_join(
-            list(itertools.takewhile(_is_not_suffix, _version_split(spec)))[:-1]
+            list(itertools.takewhile(_is_not_suffix, _version_split(normalized_spec)))[
+                :-1
+            ]
         )
 
         # Add the prefix notation to the end of our string
